@@ -204,7 +204,7 @@ def gen_case(seed, tier):
     if kind in ("ff", "pulse") and fl.random() < 0.3:
         config["platform"] = fl.choice(["xc7", "xc6s", "xc3s"])
     config["vendor"] = {"platform": fl.choice(vendors.NAMES), "castable": fl.choice([None, None, "enum", "struct"]),
-                        "default_init": fl.random() < 0.3}         # (no init= given: the stages start at the shape's default)
+                        "default_init": fl.random() < 0.3, "comb_domain": fl.random() < 0.1}         # (no init= given: the stages start at the shape's default)
     case["rerun"] = fl.random() < 0.2
     if kind in ("async", "reset") and not config.get("shadow_neg"):
         names = [n_ for n_ in ("async_ff", "reset_sync", "src") if n_ != config.get("o_name")]
@@ -326,6 +326,30 @@ def vendor_ridealong(config, P):
     from dsim import vendors
     vb = config["vendor"]
     kind, stages = config["kind"], config["stages"]
+    if vb.get("comb_domain"):
+        # "comb" is not a clock domain: there is no edge to count stages in, so it must be refused (when the primitive is made, or
+        # at the latest when it is elaborated), not silently turned into a wire
+        def attempt():
+            i, o = Signal(2, name="i"), Signal(2, name="o")
+            mm = Module()
+            mm.domains.sync = ClockDomain("sync")
+            if kind == "ff":
+                mm.submodules.dut = cdc.FFSynchronizer(i, o, o_domain="comb", stages=stages)
+            elif kind == "async":
+                mm.submodules.dut = cdc.AsyncFFSynchronizer(i[0], o[0], o_domain="comb", stages=stages)
+            elif kind == "reset":
+                mm.submodules.dut = cdc.ResetSynchronizer(i[0], domain="comb", stages=stages)
+            else:
+                mm.submodules.dut = cdc.PulseSynchronizer("sync", "comb", stages=stages)
+            with warnings.catch_warnings():
+                warnings.simplefilter("ignore")
+                rtlil.convert(mm, ports=[i, o])
+        try:
+            attempt()
+        except Exception:
+            P["comb_output_domain_refused"] = 1
+        else:
+            raise Violation("comb_output_domain_accepted", -1, {"kind": kind, "stages": stages})
     m = Module()
     on_ = config.get("o_name", "o") if kind in ("async", "reset") else "o"       # (any name, the primitives' private ones included)
     m.domains += ClockDomain(on_)
